@@ -52,6 +52,11 @@ def job_run(job):
             classes["last_light"] = [nf, -nf]
         else:
             classes["light"] = [s * q for q in range(1, nf + 1) for s in (1, -1)]
+            # the quarks that are neither light nor the heavy quark of the observable (charm for F2_bottom with NfFF = 3): no rows
+            # in either scheme
+            other = [s * q for q in range(nf + 1, 7) if q != hq for s in (1, -1)]
+            if other:
+                classes["other_massive"] = other
         for o in (0, 1, 2):
             a = res["FFNS"][name][0].orders[(o, 0, 0, 0)][0] @ f
             b = res["FFN0"][name][0].orders[(o, 0, 0, 0)][0] @ f
@@ -95,6 +100,9 @@ def run(ctx):
                 jobs += [(kind, "NC", "bottom", 5, 4, x), (kind, "EM", "charm", 4, 3, x)]
         for kind in ("F2", "FL", "F3"):
             jobs.append((kind, "CC", "charm", 4, 3, x))
+        jobs.append(("F2", "CC", "bottom", 5, 3, x))     # a heavy quark that is not adjacent to the light ones
+        if not q:
+            jobs += [("FL", "CC", "bottom", 5, 3, x), ("F3", "CC", "bottom", 5, 3, x), ("F2", "CC", "bottom", 5, 4, x)]
     res = ctx.pmap(job_run, jobs, chunksize=1)
     lines = [ln for rows in res for ln in rows]
     for ln in lines:
